@@ -31,6 +31,18 @@ PLAIN_FIELDS = ["name", "parent", "page_size", "page_token", "book", "shelf", "u
 FIELD_TYPES = ["string", "string", "string", "int32", "bool", "int64", "bytes", "double", "message", "enum"]
 
 
+LOC, IAM = "google.cloud.location.Locations", "google.iam.v1.IAMPolicy"
+MIXIN_RULES = {
+    LOC: [{"selector": LOC + ".GetLocation", "get": "/v1/{name=projects/*/locations/*}"},
+          {"selector": LOC + ".ListLocations", "get": "/v1/{name=projects/*}/locations"}],
+    IAM: [{"selector": IAM + ".GetIamPolicy", "post": "/v1/{resource=shelves/*}:getIamPolicy", "body": "*"},
+          {"selector": IAM + ".SetIamPolicy", "post": "/v1/{resource=shelves/*}:setIamPolicy", "body": "*"},
+          {"selector": IAM + ".TestIamPermissions", "post": "/v1/{resource=shelves/*}:testIamPermissions", "body": "*"}]}
+MIXIN_METHODS = {LOC: ["get_location", "list_locations"], IAM: ["get_iam_policy", "set_iam_policy", "test_iam_permissions"]}
+IAM_ROWS = {"get_iam_policy": ["resource", "options"], "set_iam_policy": ["resource", "policy"],
+            "test_iam_permissions": ["resource", "permissions"]}
+
+
 def nocase(s):
     return s.replace("_", "").lower()
 
@@ -73,7 +85,8 @@ def gen_message(r, name):
 def gen_spec(r, idx, transport=None):
     pkg, pdir = r.pick(PACKAGES)
     spec = {"package": pkg, "dir": pdir, "transport": transport or TRANSPORTS[idx % len(TRANSPORTS)],
-            "messages": [], "services": [], "two_files": r.maybe(0.4), "namespace_opt": None, "name_opt": None}
+            "messages": [], "services": [], "n_files": r.pick([1, 1, 2, 2, 3]), "namespace_opt": None, "name_opt": None,
+            "add_iam": False, "mixins": []}
     if r.maybe(0.15) or pkg.count(".") < 2:
         # a proto package without a namespace component (`solo.v2`) generates since 71dd1fd, but its package
         # __init__ reads `from .solo_v2 import gapic_version` (module_namespace|join('.') + "." + …) and cannot be
@@ -122,6 +135,10 @@ def gen_spec(r, idx, transport=None):
         allm[0]["internal"] = False      # selective generation needs at least one listed method
     if "rest" not in spec["transport"].split("+") and r.maybe(0.3):
         r.pick(allm)["cs"] = True        # client streaming: gRPC only
+    if "grpc" in spec["transport"].split("+") and r.maybe(0.15):
+        spec["add_iam"] = True           # legacy IAM methods: three fixed rows in the fix-up table, nothing in the metadata
+    if r.maybe(0.2):
+        spec["mixins"] = r.pick([[LOC], [IAM], [LOC, IAM]]) if not spec["add_iam"] else [LOC]
     inject = r.random()
     if inject < 0.06:
         # RPC names equal up to letter case (inside the quantifier; repaired by the C15 fix: commit)
@@ -218,6 +235,20 @@ def corpus_specs():
         {"name": "Import", "input": "ImportRequest", "internal": True, "ss": False, "cs": False, "lro": False}]},
         {"name": "Archive", "methods": [{"name": "Return", "input": "google.protobuf.Empty", "internal": False, "ss": False, "cs": False, "lro": False}]}]
     out.append(("keyword_internal_reserved", s))
+    # (5) internal service + keyword RPC under every transport set, three proto files, Locations mixin, legacy IAM
+    for tr in TRANSPORTS:
+        s = base(tr)
+        s["n_files"] = 3
+        s["mixins"] = [LOC]
+        s["add_iam"] = "grpc" in tr.split("+")
+        s["messages"] = [{"name": "PassRequest", "fields": [_fd("global", False, number=2), _fd("name", True, number=5), _fd("async", True, "bool", number=1)]}]
+        s["services"] = [
+            {"name": "Library", "methods": [
+                {"name": "Pass", "input": "PassRequest", "internal": True, "ss": False, "cs": False, "lro": False},
+                {"name": "GetBook", "input": "PassRequest", "internal": False, "ss": False, "cs": False, "lro": False}]},
+            {"name": "Archive", "methods": [{"name": "Yield", "input": "google.protobuf.Empty", "internal": False, "ss": True, "cs": False, "lro": False}]},
+            {"name": "Catalog", "methods": [{"name": "Is", "input": "PassRequest", "internal": True, "ss": False, "cs": False, "lro": True}]}]
+        out.append(("internal_" + tr.replace("+", "_"), s))
     return out
 
 
@@ -299,16 +330,18 @@ def build_files(spec):
                 tn = color
             mm.field(fd["name"], typ, fd.get("number"), type_name=tn, repeated=fd.get("repeated", False), oneof=fd.get("oneof"),
                      optional=fd.get("optional", False), **kw)
-    f2 = None
+    extra_files = {}
     for k, s in enumerate(spec["services"]):
         if s.get("builtin"):
             continue
         target = f
-        if spec.get("two_files") and k % 2 == 1:
-            if f2 is None:
-                f2 = apigen.File(f"{pdir}/extra.proto", pkg).dep(f"{pdir}/lib.proto")
-                files.append(f2)
-            target = f2
+        nf = spec.get("n_files") or (2 if spec.get("two_files") else 1)
+        if nf > 1 and k % nf != 0:
+            slot = k % nf
+            if slot not in extra_files:
+                extra_files[slot] = apigen.File(f"{pdir}/extra{slot}.proto", pkg).dep(f"{pdir}/lib.proto")
+                files.append(extra_files[slot])
+            target = extra_files[slot]
         svc = target.service(s["name"])
         for m in s["methods"]:
             inp = "." + m["input"] if m["input"].startswith("google.") else f".{pkg}.{m['input']}"
@@ -321,11 +354,18 @@ def build_files(spec):
 
 def service_yaml(spec):
     pub = [f"{spec['package']}.{s['name']}.{m['name']}" for s in spec["services"] for m in s["methods"] if not m["internal"]]
-    if len(pub) == sum(len(s["methods"]) for s in spec["services"]):
+    selective = len(pub) != sum(len(s["methods"]) for s in spec["services"])
+    mixins = spec.get("mixins") or []
+    if not selective and not mixins:
         return None
-    return {"type": "google.api.Service", "config_version": 3, "name": "lib.example.com",
-            "publishing": {"library_settings": [{"version": spec["package"], "python_settings": {"common": {
-                "selective_gapic_generation": {"methods": pub, "generate_omitted_as_internal": True}}}}]}}
+    y = {"type": "google.api.Service", "config_version": 3, "name": "lib.example.com"}
+    if selective:
+        y["publishing"] = {"library_settings": [{"version": spec["package"], "python_settings": {"common": {
+            "selective_gapic_generation": {"methods": pub, "generate_omitted_as_internal": True}}}}]}
+    if mixins:
+        y["apis"] = [{"name": a} for a in mixins]
+        y["http"] = {"rules": [ru for a in mixins for ru in MIXIN_RULES[a]]}
+    return y
 
 
 class Built:
@@ -347,6 +387,8 @@ class Built:
             params.append(f"python-gapic-namespace={spec['namespace_opt']}")
         if spec.get("name_opt"):
             params.append(f"python-gapic-name={spec['name_opt']}")
+        if spec.get("add_iam"):
+            params.append("add-iam-methods")
         self.req = apigen.request(self.files, ",".join(params))
 
     def close(self):
@@ -414,6 +456,81 @@ def parse_fixup(src):
                     d = st.value
                     return node.name, [(ast.literal_eval(k), list(ast.literal_eval(v))) for k, v in zip(d.keys, d.values)]
     return None, None
+
+
+# ---------------------------------------------------------------------------------------------
+# the emitted transformer, RUN on old-style call sites
+
+CTRL = ["retry", "timeout", "metadata"]
+
+
+def gen_calls(r, tdict, foreign, n):
+    """call trees {"recv", "key", "args": [[kw|None, value]], "style"}; value = {"lit": src} | call tree"""
+    import keyword
+    keys = sorted(k for k in tdict if not keyword.iskeyword(k))     # `client.import(…)` is not Python
+    ctr = [0]
+
+    def lit():
+        ctr[0] += 1
+        return {"lit": r.pick([f"'v{ctr[0]}'", f"x{ctr[0]}", f"{ctr[0]}", f"[x{ctr[0]}, 'w']", f"cfg['k{ctr[0]}']"])}
+
+    def call(depth):
+        key = r.pick(keys) if keys and r.maybe(0.85) else r.pick(foreign)
+        params = tdict.get(key, ["a", "b"])
+        style = r.pick(["pos", "pos", "pos", "pos+ctrl", "pos+kw", "pos+kw-skip", "pos+ctrlkw", "fixed", "bare"])
+
+        def val():
+            return call(depth + 1) if depth < 2 and r.maybe(0.15) else lit()
+        args = []
+        npos = r.randint(0, len(params))
+        if style == "pos+ctrl":
+            npos = len(params) + r.randint(1, 3)
+        for _ in range(npos):
+            args.append([None, val()])
+        if style in ("pos+kw", "pos+kw-skip"):
+            rest = [q for q in params[npos:] if q.isidentifier()]
+            if style == "pos+kw-skip":
+                rest = [q for q in rest if r.maybe(0.6)]
+                r.shuffle(rest)
+            else:
+                rest = rest[:r.randint(0, len(rest))]
+            for q in rest:
+                args.append([q, val()])
+        if style in ("pos+ctrlkw", "pos+kw") and npos <= len(params):
+            for cp in CTRL:
+                if r.maybe(0.4):
+                    args.append([cp, val()])
+        if style == "fixed":
+            args = [["request", {"lit": "{" + ", ".join(f"'{q}': {k}" for k, q in enumerate(params[:2])) + "}"}]]
+            if r.maybe(0.5):
+                args.append(["retry", lit()])
+        return {"recv": None if style == "bare" else r.pick(["client", "self._client", "lib.make_client()"]),
+                "key": key, "args": args, "style": style}
+    return [call(0) for _ in range(n)]
+
+
+def render_call(c, fixed=None):
+    """source of a call tree; `fixed` maps id(node) -> model result (None = unchanged)"""
+    def rv(v):
+        return v["lit"] if "lit" in v else render_call(v, fixed)
+    head = (c["recv"] + "." if c["recv"] else "") + c["key"]
+    res = fixed.get(id(c)) if fixed is not None else None
+    if res is None:
+        return head + "(" + ", ".join((f"{kw}=" if kw else "") + rv(v) for kw, v in c["args"]) + ")"
+    parts = ["request={" + ", ".join(f"'{name}': {rv(c['args'][i][1])}" for name, i in res["request"]) + "}"]
+    parts += [f"{name}={rv(c['args'][i][1])}" for name, i in res["ctrl"]]
+    return head + "(" + ", ".join(parts) + ")"
+
+
+def all_nodes(c):
+    for _, v in c["args"]:
+        if "lit" not in v:
+            yield from all_nodes(v)
+    yield c
+
+
+def norm_src(src):
+    return ast.dump(ast.parse(src))
 
 
 KIND_TRANSPORT = {"grpc": "grpc", "grpc-async": "grpc_asyncio", "rest": "rest"}
@@ -521,7 +638,17 @@ def run_spec(ctx, spec, label, probe=None):
         # the model's emitted classes (for the model-vs-emitted tie)
         for cname, _ in mo["classes"]:
             ops.append({"op": "dir", "module": libpkg, "attr": cname}); plan.append(("model-class", cname, None, None, None, None))
+        # old-style call sites for the emitted transformer (run in the same child, after everything else)
+        rc = ctx.rng("calls", label, json.dumps(spec, sort_keys=True)[:2000])
+        tdict0 = dict(table)
+        foreign = ["close", "get_transport_class", "frobnicate"] + \
+                  [mm["py_method_name"] for n_ in mo["names"] for mm in n_["methods"] if mm["py_method_name"] not in tdict0][:4]
+        calls = gen_calls(rc, tdict0, foreign, ctx.n(10, 16))
+        sources = [f"y{k} = {render_call(c)}\n" for k, c in enumerate(calls)]
+        ops.append({"op": "c15_fixup", "module": ffiles[0][:-3].replace("/", "."), "sources": sources + ["".join(sources)]})
         out = libhost.run(root, ops, timeout=300)
+        fix_out = out.pop()
+        ops.pop()
         if "child_error" in out[0]:
             ctx.fail("import-crash", f"library host failed: {out[0]['child_error'][-300:]}", payload)
             return
@@ -599,6 +726,7 @@ def run_spec(ctx, spec, label, probe=None):
         tdict = dict(table)
         if not isinstance(fx.get("value"), dict) or {k: list(v) for k, v in fx["value"].items()} != tdict:
             fails.append(("fixup-script-not-loadable", f"importing the script gave {str(fx)[:300]}"))
+        oracle_order = {}      # table key -> required-first declaration order, from the INPUT descriptors
         by_rpc_name = {}
         for s in spec["services"]:
             for m in s["methods"]:
@@ -650,9 +778,71 @@ def run_spec(ctx, spec, label, probe=None):
                     fails.append(("fixup-params", f"{name}: table {got}, none of the requests' orders {expected}"))
             elif got is not None and expected and got != expected[0]:
                 fails.append(("fixup-params", f"{name}: table {got}, required-first declaration order {expected[0]}"))
-        extra = [k for k in tdict if not any(nocase(k) == nocase(n) for n in by_rpc_name)]
+            if len({json.dumps(e) for e in expected}) == 1 and not (spec.get("add_iam") and cands[0] in IAM_ROWS):
+                oracle_order[cands[0]] = expected[0]
+        if spec.get("add_iam"):
+            for k, v in IAM_ROWS.items():
+                if tdict.get(k) != v:
+                    fails.append(("fixup-iam-row", f"add-iam-methods: METHOD_TO_PARAMS[{k!r}] = {tdict.get(k)} expected {v}"))
+        extra = [k for k in tdict if not any(nocase(k) == nocase(n) for n in by_rpc_name)
+                 and not (spec.get("add_iam") and k in IAM_ROWS)]
         if extra:
             fails.append(("fixup-extra-entry", f"keys {sorted(extra)} belong to no RPC of {sorted(by_rpc_name)}"))
+        # mixin / legacy IAM client methods exist but are not RPCs of the target package: they must not be listed
+        listed = {mt for sd in md.get("services", {}).values() for cd in sd.get("clients", {}).values()
+                  for rd in cd.get("rpcs", {}).values() for mt in rd.get("methods", [])}
+        own = {mm["py_method_name"] for n_ in mo["names"] for mm in n_["methods"]}
+        for a in spec.get("mixins") or []:
+            ctx.count("mixin_api", a.split(".")[-1])
+            for mt in MIXIN_METHODS[a]:
+                if mt in listed and mt not in own:
+                    fails.append(("mixin-listed", f"mixin method {mt} of {a} is listed in the metadata"))
+                if any(names_ is not None and mt not in names_ for names_ in dirs.values()):
+                    ctx.count("mixin_method_absent_on_a_client", mt)
+        # ---- the emitted transformer on old-style call sites
+        fixed_model = {}
+        if not isinstance(fix_out.get("outputs"), list) or len(fix_out["outputs"]) != len(sources) + 1:
+            fails.append(("fixup-run-crash", f"running the emitted transformer failed: {str(fix_out)[:300]}"))
+        else:
+            nodes = [nd for c in calls for nd in all_nodes(c)]
+            asked = [nd for nd in nodes if nd["recv"] is not None]
+            mres = ctx.driver.ask([{"op": "c15.fix", "table": [[k, v] for k, v in table],
+                                    "calls": [{"key": nd["key"], "args": [[kw, i] for i, (kw, _) in enumerate(nd["args"])]} for nd in asked]}])[0]["results"]
+            for nd, res_ in zip(asked, mres):
+                fixed_model[id(nd)] = res_
+            outs = fix_out["outputs"]
+            whole = outs[-1]
+            if isinstance(whole, dict) or "".join(o for o in outs[:-1] if isinstance(o, str)) != whole:
+                fails.append(("fixup-run-file", "transforming the statements one by one and as one module differ"))
+            for k, (c, src, got) in enumerate(zip(calls, sources, outs)):
+                ctx.case(None, distinct_key=["call", label, src])
+                ctx.count("call_style", c["style"] + ("" if c["key"] in tdict else ":foreign"))
+                ctx.traces += 1
+                cpay = dict(payload, call=src.strip())
+                if isinstance(got, dict):
+                    fails.append(("fixup-run-crash", f"{src.strip()}: {got}"))
+                    continue
+                try:
+                    gnorm = norm_src(got)
+                except SyntaxError as e:
+                    fails.append(("fixup-run-syntax", f"{src.strip()} -> {got.strip()!r}: {e}"))
+                    continue
+                want_model = f"y{k} = {render_call(c, fixed_model)}\n"
+                if gnorm != norm_src(want_model):
+                    ctx.disagree("T3:c15.fix_call", f"{src.strip()}: model {want_model.strip()} vs emitted script {got.strip()}", cpay)
+                # oracle: only the shapes the statement's table semantics determine
+                flat = all("lit" in v for _, v in c["args"])
+                want = None
+                if c["style"] == "fixed" or c["style"] == "bare" or (c["key"] not in tdict):
+                    want = src if flat else None                      # left alone
+                elif c["style"] in ("pos", "pos+ctrl") and flat and c["key"] in oracle_order:
+                    order = oracle_order[c["key"]]
+                    vals = [v["lit"] for _, v in c["args"]]
+                    want = (f"y{k} = {c['recv']}.{c['key']}(request={{" + ", ".join(f"'{q}': {v}" for q, v in zip(order, vals)) + "}"
+                            + "".join(f", {cp}={v}" for cp, v in zip(CTRL, vals[len(order):])) + ")\n")
+                if want is not None and gnorm != norm_src(want):
+                    kk = {"fixed": "fixup-run:already-fixed", "bare": "fixup-run:foreign-call"}.get(c["style"], "fixup-run:positional" if c["key"] in tdict else "fixup-run:foreign-call")
+                    fails.append((kk, f"{src.strip()} was rewritten to {got.strip()}; positional argument i belongs to field i of the required-first declaration order: {want.strip()}"))
         for key, what in fails:
             if probe:
                 ctx.count("excluded_point_failures", f"{probe}:{key}")
@@ -666,7 +856,8 @@ def run_spec(ctx, spec, label, probe=None):
         emitted_cmp = {k: md.get(k) for k in ("protoPackage", "libraryPackage", "services")}
         if emitted_cmp != model_md_dict(mo):
             ctx.disagree("T3:c15.metadata_json", f"model {json.dumps(model_md_dict(mo), sort_keys=True)[:500]} vs emitted {json.dumps(emitted_cmp, sort_keys=True)[:500]}", payload)
-        model_table = {k: v for k, v in mo["fixup"]}
+        mi_t = dict(mi, op="c15.table", add_iam=bool(spec.get("add_iam")))
+        model_table = {k: v for k, v in ctx.driver.ask([mi_t])[0]["fixup"]}
         if model_table != tdict:
             ctx.disagree("T3:c15.fixup_table", f"model {json.dumps(model_table, sort_keys=True)[:500]} vs emitted {json.dumps(tdict, sort_keys=True)[:500]}", payload)
         if not probe:
